@@ -5,4 +5,4 @@ from ._engine import engine_check
 def run(ctx):
     return engine_check(ctx, "PropC03", [("one_sided", 4000, 100000)],
                         "one-sided run rejected by the monitor (C03: mirror / origin untouched / no echo / no conflicted artefact)",
-                        stream_b="C03")
+                        stream_b="C03", entry_predicates=True, algo=True)
